@@ -559,4 +559,82 @@ theorem finishFactors_si (l : List (String × Int)) (hs : ∀ p ∈ l, p.1 ∈ a
   intro c hc
   exact ⟨validField_of_unitInField (flatC_fields l hs c hc), hf c hc⟩
 
+/-! ### transfer of text shapes from the raw (stripped) text to the preprocessed text -/
+
+/-- identifies `u` with `µ` and nothing else -/
+def uq (c : Char) : Char := if c = 'u' then 'µ' else c
+
+theorem uq_eq {x y : Char} (h : uq x = uq y) (hy : y ≠ 'u' ∧ y ≠ 'µ') : x = y := by
+  unfold uq at h
+  split at h
+  · rename_i hx
+    split at h
+    · rename_i hy'; exact absurd hy' hy.1
+    · exact absurd h.symm hy.2
+  · split at h
+    · rename_i hy'; exact absurd hy' hy.1
+    · exact h
+
+theorem uq_cases {x y : Char} (h : uq x = uq y) : x = y ∨ ((x = 'u' ∨ x = 'µ') ∧ (y = 'u' ∨ y = 'µ')) := by
+  by_cases hy : y ≠ 'u' ∧ y ≠ 'µ'
+  · exact Or.inl (uq_eq h hy)
+  · right
+    have hy' : y = 'u' ∨ y = 'µ' := by
+      by_cases h1 : y = 'u'
+      · exact Or.inl h1
+      · by_cases h2 : y = 'µ'
+        · exact Or.inr h2
+        · exact absurd ⟨h1, h2⟩ hy
+    refine ⟨?_, hy'⟩
+    by_cases hx : x ≠ 'u' ∧ x ≠ 'µ'
+    · have := uq_eq h.symm hx
+      rcases hy' with h1 | h1
+      · exact Or.inl (by rw [← this, h1])
+      · exact Or.inr (by rw [← this, h1])
+    · by_cases h1 : x = 'u'
+      · exact Or.inl h1
+      · by_cases h2 : x = 'µ'
+        · exact Or.inr h2
+        · exact absurd ⟨h1, h2⟩ hx
+
+theorem isBlank_uq (c : Char) : isBlank (uq c) = isBlank c := by
+  unfold uq
+  split
+  · rename_i h; subst h; decide
+  · rfl
+
+theorem stripBy_map_uq (s : List Char) : (stripBlank s).map uq = stripBlank (s.map uq) := by
+  have h1 : ∀ l : List Char, (l.dropWhile isBlank).map uq = (l.map uq).dropWhile isBlank := by
+    intro l
+    induction l with
+    | nil => rfl
+    | cons c cs ih =>
+      simp only [List.dropWhile, List.map_cons, isBlank_uq]
+      split
+      · exact ih
+      · simp
+  unfold stripBlank stripBy
+  rw [List.map_reverse, h1, List.map_reverse, h1]
+
+/-- the preprocessed text and the stripped raw text agree up to `u`/`µ` -/
+theorem prepUnits_uq (s0 : List Char) : (prepUnits s0).map uq = (stripBlank s0).map uq := by
+  unfold prepUnits
+  rw [stripBy_map_uq, stripBy_map_uq]
+  have h := replaceChain_map uq (by decide) uSubst uSubst_patOk s0
+  have h' : (uSubst.foldl (fun acc (x : String × String) =>
+      match x with | (a, b) => replaceAll a.toList b.toList acc) s0).map uq = s0.map uq := h
+  rw [h']
+
+/-- a decomposition of the raw text around one character carries over -/
+theorem uq_split {s t a r : List Char} {x : Char} (h : s.map uq = t.map uq) (ht : t = a ++ x :: r) :
+    ∃ a' x' r', s = a' ++ x' :: r' ∧ a'.map uq = a.map uq ∧ uq x' = uq x ∧ r'.map uq = r.map uq := by
+  subst ht
+  rw [List.map_append, List.map_cons] at h
+  obtain ⟨a', l2, hs, ha, hl2⟩ := List.map_eq_append_iff.1 h
+  obtain ⟨x', r', hl, hx, hr⟩ := List.map_eq_cons_iff.1 hl2
+  exact ⟨a', x', r', by rw [hs, hl], ha, hx, hr⟩
+
+theorem uq_nil {s t : List Char} (h : s.map uq = t.map uq) (ht : t = []) : s = [] := by
+  subst ht; simpa using h
+
 end Strengths
